@@ -163,17 +163,31 @@ def run(ctx: Ctx) -> None:
             rejected += 1
             continue
         dtypes[str(inst.dtype)] = dtypes.get(str(inst.dtype), 0) + 1
+        nit = sum(r[2] for r in rows)
         need = max(max(W, H) + max(max(r[0], r[1]) for r in rows) + 1,
-                   inst.n_items + 1)
+                   nit + 1)
         if np.iinfo(inst.dtype).max < need - 1:
             ctx.violation(
                 "Instance|dtype too small",
                 f"bin {W}x{H} items={rows}: dtype {inst.dtype} cannot hold"
                 f" {need - 1}", {"W": W, "H": H, "rows": rows})
-        for x in edge_perms(inst):
-            for enc in (1, 2):
-                check_public(ctx, inst, enc, x, "storage edge")
-                edge += 1
+        if np.asarray(inst).tolist() != rows or inst.n_items != nit:
+            ctx.violation(
+                "Instance|stored matrix differs from the given one",
+                f"bin {W}x{H} items={rows}: stored "
+                f"{np.asarray(inst).tolist()} dtype {inst.dtype}",
+                {"W": W, "H": H, "rows": rows})
+            continue
+        try:
+            for x in edge_perms(inst):
+                for enc in (1, 2):
+                    check_public(ctx, inst, enc, x, "storage edge")
+                    edge += 1
+        except Exception as e:  # noqa  decoding a valid input must work
+            ctx.violation(
+                "decoder|raises on a valid input",
+                f"bin {W}x{H} items={rows}: {type(e).__name__}: {e}",
+                {"W": W, "H": H, "rows": rows})
     ctx.add("evaluations", edge)
     ctx.add("traces_validated_against_impl", edge)
     ctx.part("storage_edges", decodings=edge, dtypes=dtypes,
